@@ -341,6 +341,7 @@ fn starting_theta_from_sampling_probability(sampling_probability: f32) -> u64 {
 #[cfg(feature = "verif-hooks")]
 impl ThetaHashTable {
     pub(crate) fn verif_screen(&mut self, hash: u64) -> u64 {
+        self.is_empty = false;
         if hash >= self.theta {
             return 0;
         }
